@@ -102,6 +102,7 @@ class Shapecheck:
         # per-entry registries of leaf kinds (leaf names such as `self` recur between entry points)
         import lax_model
         lax_model.LABEL_LEAVES.clear()
+        lax_model.FLAG_LEAVES.clear()
         lax_model.LIST_ELEM.clear()
         import loops
         loops.LOOP_DEPS.clear()
